@@ -36,8 +36,6 @@ type RelayAddressGeneratorPortRange struct {
 	Address string
 
 	Net transport.Net
-
-	listenerPorts relayListenerPorts
 }
 
 // Validate is called on server startup and confirms the RelayAddressGenerator is properly configured.
@@ -140,7 +138,7 @@ func (r *RelayAddressGeneratorPortRange) AllocateListener( // nolint: cyclop
 			return nil, nil, err
 		}
 
-		ln, err := r.listenerPorts.listen(port, func() (net.Listener, error) {
+		ln, err := liveRelayListeners.listen(tcpAddr.IP, port, func() (net.Listener, error) {
 			return listenConfig.Listen(context.TODO(), conf.Network, tcpAddr.String())
 		})
 		if err != nil {
